@@ -47,7 +47,7 @@ def _tlc_table(ctx, module, env, name, timeout, what, heap=None):
 def design(ctx):
     cfg = ctx.pick("RefreshTimer_mc.cfg", "RefreshTimer_mc_thorough.cfg")
     mc = tlc.run(ctx, "RefreshTimerMC", cfg, workers=ctx.pick(4, 8), coverage=True,
-                 timeout=ctx.pick(900, 3000))
+                 timeout=ctx.pick(1800, 5400))
     if not mc.ok:
         raise InfraError("spec-level counterexample / failure in RefreshTimerMC (%s): %s\n%s" % (
             cfg, mc.summary(), common.tail(mc.out, 30)))
